@@ -415,6 +415,12 @@ class LoadMixin(AbstractLoaderGenerator, BaseLoadHook):
                     fn_gen.add_line(f'result[{field_name}] = {string}')
             fn_gen.add_line('return result')
 
+        # an error raised while loading a nested value (e.g. a dataclass) already
+        # names the class and field it occurred in, so don't wrap it in a new one
+        extras['locals']['JSONWizardError'] = JSONWizardError
+        with fn_gen.except_(JSONWizardError):
+            fn_gen.add_line('raise')
+
         with fn_gen.except_(Exception, 'e'):
             with fn_gen.if_('type(e) is KeyError'):
                 fn_gen.add_line('name = e.args[0]; e = KeyError(f"Missing required key: {name!r}")')
